@@ -8,7 +8,7 @@
 From Coq Require Import ZArith List Bool.
 From HV Require Import Prelude.Py Prelude.State Prelude.Utf8 Spec.DynTable Spec.SDecoder.
 From HV Require Import Model.Data Model.Decoder Model.Rel.
-From HV Require Import Proofs.Table Proofs.DecoderRefine Proofs.SpecDecoder Proofs.DecoderMeaning.
+From HV Require Import Proofs.Table Proofs.DecoderRefine Proofs.SpecDecoder Proofs.DecoderMeaning Proofs.DecoderMeaningText.
 Import ListNotations.
 Open Scope Z_scope.
 
@@ -41,6 +41,34 @@ Theorem C02_wellformed_decodes : forall d rs w fs c', dec_ok d ->
   exists hs d', Decoder_decode d w true = (Ok hs, d') /\ map conv hs = fs /\ ctx_of d' = c' /\ dec_ok d'.
 Proof. exact wellformed_decodes. Qed.
 
+(** the same in text mode (the library's default), when the strings are text *)
+Theorem C02_wellformed_decodes_text : forall d rs w fs c', dec_ok d ->
+  wire_block KLIM rs w -> sem (ctx_of d) rs [] = Some (fs, c') ->
+  forallb (fun f => utf8_valid (snd (fst f)) && utf8_valid (snd f)) fs = true ->
+  exists hs d', Decoder_decode d w false = (Ok hs, d') /\ map conv hs = fs /\ ctx_of d' = c' /\ dec_ok d'.
+Proof. exact wellformed_decodes_text. Qed.
+(** and conversely: whatever the Decoder accepts is a wire form of a well-formed sequence of
+    representations whose meaning is what it returned (so "malformed" blocks are refused) *)
+Theorem C02_accepted_is_wellformed : forall d w hs d', dec_ok d ->
+  Decoder_decode d w true = (Ok hs, d') ->
+  exists rs, wire_block KLIM rs w /\ sem (ctx_of d) rs [] = Some (map conv hs, ctx_of d').
+Proof. exact accepted_is_wellformed. Qed.
+
+(** non-vacuity: a fresh decoder satisfies [dec_ok]; RFC 7541 C.3.1 decodes as the RFC says *)
+Example C02_example :
+  fst (Decoder_decode (Decoder_init 65536)
+        [Byte.x82; Byte.x86; Byte.x84; Byte.x41; Byte.x0f; Byte.x77; Byte.x77; Byte.x77; Byte.x2e; Byte.x65; Byte.x78;
+         Byte.x61; Byte.x6d; Byte.x70; Byte.x6c; Byte.x65; Byte.x2e; Byte.x63; Byte.x6f; Byte.x6d] true)
+  = Ok [(HPlain, [Byte.x3a;Byte.x6d;Byte.x65;Byte.x74;Byte.x68;Byte.x6f;Byte.x64], [Byte.x47;Byte.x45;Byte.x54]);
+        (HPlain, [Byte.x3a;Byte.x73;Byte.x63;Byte.x68;Byte.x65;Byte.x6d;Byte.x65], [Byte.x68;Byte.x74;Byte.x74;Byte.x70]);
+        (HPlain, [Byte.x3a;Byte.x70;Byte.x61;Byte.x74;Byte.x68], [Byte.x2f]);
+        (HPlain, [Byte.x3a;Byte.x61;Byte.x75;Byte.x74;Byte.x68;Byte.x6f;Byte.x72;Byte.x69;Byte.x74;Byte.x79],
+                 [Byte.x77;Byte.x77;Byte.x77;Byte.x2e;Byte.x65;Byte.x78;Byte.x61;Byte.x6d;Byte.x70;Byte.x6c;Byte.x65;Byte.x2e;Byte.x63;Byte.x6f;Byte.x6d])].
+Proof. vm_compute. reflexivity. Qed.
+
+Print Assumptions C02_dec_ok_is.
+Print Assumptions C02_wellformed_decodes_text.
+Print Assumptions C02_accepted_is_wellformed.
 Print Assumptions C02_decode_refines.
 Print Assumptions C02_wire_meaning.
 Print Assumptions C02_wellformed_decodes.
